@@ -30,29 +30,29 @@ import (
 
 // WSConnPlan is one client connection.
 type WSConnPlan struct {
-	Msgs     []int `json:"msgs"`               // lengths of the messages the client sends, in order
-	Frag     int   `json:"frag,omitempty"`     // client fragments its messages into frames of this size (0: one frame)
-	Eager    bool  `json:"eager,omitempty"`    // client sends its first messages immediately after the 101 (same write burst)
-	Writers  [][]int `json:"writers,omitempty"` // server side: concurrent goroutines, each writing messages of these lengths
-	HandlerYields int `json:"handler_yields,omitempty"`
-	End      string `json:"end,omitempty"`     // "" client sends close frame at the end | reset | appclose (server closes) | none
-	Piece    int   `json:"piece"`
-	PanicAt  int   `json:"panic_at,omitempty"` // k > 0: the message callback of the k-th message panics when it is done
+	Msgs          []int   `json:"msgs"`              // lengths of the messages the client sends, in order
+	Frag          int     `json:"frag,omitempty"`    // client fragments its messages into frames of this size (0: one frame)
+	Eager         bool    `json:"eager,omitempty"`   // client sends its first messages immediately after the 101 (same write burst)
+	Writers       [][]int `json:"writers,omitempty"` // server side: concurrent goroutines, each writing messages of these lengths
+	HandlerYields int     `json:"handler_yields,omitempty"`
+	End           string  `json:"end,omitempty"` // "" client sends close frame at the end | reset | appclose (server closes) | none
+	Piece         int     `json:"piece"`
+	PanicAt       int     `json:"panic_at,omitempty"` // k > 0: the message callback of the k-th message panics when it is done
 }
 
 // WSCase is a case of C14.
 type WSCase struct {
-	Sched   common.Sched  `json:"sched"`
-	K       kernel.Params `json:"kernel"`
-	IOMod   string        `json:"iomod"` // nonblocking | blocking | transfer
-	Mode    string        `json:"mode"`
-	NPoller int           `json:"npoller"`
-	Pool    int           `json:"pool"`
-	FrameMax int          `json:"frame_max"` // server side MaxWebsocketFramePayloadSize
-	Compress bool         `json:"compress,omitempty"` // permessage-deflate negotiated, both directions compressed
-	Track    bool         `json:"track,omitempty"`    // C11: ownership-tracking allocators instead of the real pools
-	TLS      bool         `json:"tls,omitempty"`      // wss: TLS listener (llib, transformed), crypto/tls clients
-	Conns   []WSConnPlan  `json:"conns"`
+	Sched    common.Sched  `json:"sched"`
+	K        kernel.Params `json:"kernel"`
+	IOMod    string        `json:"iomod"` // nonblocking | blocking | transfer
+	Mode     string        `json:"mode"`
+	NPoller  int           `json:"npoller"`
+	Pool     int           `json:"pool"`
+	FrameMax int           `json:"frame_max"`          // server side MaxWebsocketFramePayloadSize
+	Compress bool          `json:"compress,omitempty"` // permessage-deflate negotiated, both directions compressed
+	Track    bool          `json:"track,omitempty"`    // C11: ownership-tracking allocators instead of the real pools
+	TLS      bool          `json:"tls,omitempty"`      // wss: TLS listener (llib, transformed), crypto/tls clients
+	Conns    []WSConnPlan  `json:"conns"`
 }
 
 func genWSCase(r *simrt.Rand, tier string) *WSCase {
@@ -205,19 +205,19 @@ func (w *hijackWriter) Hijack() (net.Conn, *bufio.ReadWriter, error) {
 }
 
 type wsConnState struct {
-	plan      WSConnPlan
-	p         *peer
-	recvd     []byte // after the 101
-	hsDone    bool
-	eof       bool
-	events    []string // callback log of the server side: open-start, open-end, msg-start k, msg-end k, close
-	inCB      int
-	opens     int
-	closes    int
-	gotMsgs   [][]byte
-	wsc       *websocket.Conn
-	wrote     map[string]bool // messages for which WriteMessage returned nil (id -> true)
-	writersDone int
+	plan              WSConnPlan
+	p                 *peer
+	recvd             []byte // after the 101
+	hsDone            bool
+	eof               bool
+	events            []string // callback log of the server side: open-start, open-end, msg-start k, msg-end k, close
+	inCB              int
+	opens             int
+	closes            int
+	gotMsgs           [][]byte
+	wsc               *websocket.Conn
+	wrote             map[string]bool // messages for which WriteMessage returned nil (id -> true)
+	writersDone       int
 	serverClosedByApp bool
 }
 
@@ -231,7 +231,9 @@ func wsPayload(id string, n int) []byte {
 	return b
 }
 
-func runWS(t *testing.T, ci interface{}, trace bool) *common.Outcome { return runWSAs(t, ci, trace, "C14") }
+func runWS(t *testing.T, ci interface{}, trace bool) *common.Outcome {
+	return runWSAs(t, ci, trace, "C14")
+}
 
 func runWSAs(t *testing.T, ci interface{}, trace bool, prop string) *common.Outcome {
 	c := ci.(*WSCase)
